@@ -16,6 +16,7 @@ package main
 
 import (
 	"fmt"
+	"math/big"
 	"sort"
 	"strconv"
 	"strings"
@@ -50,8 +51,13 @@ func c7Witnesses() []c7prog {
 	}
 	for _, r := range rows {
 		fmt.Fprintf(&sb, "%s_exact: int & >=%s & <=%s\n", r[0], r[1], r[2])
-		fmt.Fprintf(&sb, "%s_hi1: int & >=%s & <=%s + 1\n", r[0], r[1], r[2])
-		fmt.Fprintf(&sb, "%s_lo1: int & >=%s - 1 & <=%s\n", r[0], r[1], r[2])
+		lo, _ := new(big.Int).SetString(r[1], 10)
+		hi, _ := new(big.Int).SetString(r[2], 10)
+		one := big.NewInt(1)
+		fmt.Fprintf(&sb, "%s_hi1: int & >=%s & <=%s\n", r[0], r[1], new(big.Int).Add(hi, one))
+		fmt.Fprintf(&sb, "%s_hi0: int & >=%s & <=%s\n", r[0], r[1], new(big.Int).Sub(hi, one))
+		fmt.Fprintf(&sb, "%s_lo1: int & >=%s & <=%s\n", r[0], new(big.Int).Sub(lo, one), r[2])
+		fmt.Fprintf(&sb, "%s_lo0: int & >=%s & <=%s\n", r[0], new(big.Int).Add(lo, one), r[2])
 		fmt.Fprintf(&sb, "%s_name: %s\n", r[0], r[0])
 		fmt.Fprintf(&sb, "%s_nameAnd: %s & >%s\n", r[0], r[0], r[1])
 		fmt.Fprintf(&sb, "%s_strict: int & >%s & <%s\n", r[0], r[1], r[2])
